@@ -7,7 +7,7 @@ func init() {
 		ID: "C15", PkgDir: "interp", PkgPath: interpPath, PkgName: "interp",
 		Harness:    []string{"interp_common.go", "C15.go"},
 		Instrument: runidInstr, ValidateRun: "^TestVerifValidateC15$", TestFiles: []string{"C15_validate.go.txt"},
-		Redirects:  map[string]string{interpPath + ".getVarDependencies": "vmGetVarDependencies"},
+		Redirects: map[string]string{interpPath + ".getVarDependencies": "vmGetVarDependencies"},
 		Obligs: func(tier string) []Oblig {
 			r := []Oblig{
 				{Harness: "vh_C15_order", Globals: map[string]int{"vhNVars": 2}, Unroll: 12, MaxPaths: 200000},
